@@ -28,10 +28,13 @@ import (
 )
 
 // the functions that take `rec_`
-var gcRecFuncs = map[string]bool{"fromCtyList": true, "fromCtySet": true, "fromCtyMap": true, "fromCtyTuple": true}
+var gcRecFuncs = map[string]bool{"fromCtyList": true, "fromCtySet": true, "fromCtyMap": true, "fromCtyTuple": true, "fromCtyObject": true}
+
+// the functions that range over a Go map inside a pinned region: they take the order `ord_` in which the attribute names are visited
+var gcOrdFuncs = map[string]bool{"fromCtyObject": true}
 
 // the entry points of the second generated file
-var gcShapeRoots = []string{"fromCtyList", "fromCtySet", "fromCtyMap", "fromCtyTuple"}
+var gcShapeRoots = []string{"fromCtyList", "fromCtySet", "fromCtyMap", "fromCtyTuple", "fromCtyObject"}
 
 var gcPureCalls = map[string]bool{"target.Len()": true}
 
@@ -139,6 +142,41 @@ if err != nil {
 path = path[:len(path)-1]
 target.Set(tv)`,
 		"(GoctyGo.mapIntoMap rec_ $val $target)", []string{"val", "target"}},
+	{"fromCtyObject", "objectMissingCheck", 4,
+		`attrTypes := val.Type().AttributeTypes()
+targetFields := structTagIndices(target.Type())
+path = append(path, nil)
+for k, i := range targetFields {
+	if _, exists := attrTypes[k]; !exists {
+		fk := target.Field(i).Kind()
+		switch fk {
+		case reflect.Ptr, reflect.Slice, reflect.Map, reflect.Interface:
+		default:
+			return path.NewErrorf("missing required attribute %q", k)
+		}
+	}
+}`,
+		"(GoctyGo.objectMissingCheck $val $target target_v)", []string{"val", "target"}},
+	{"fromCtyObject", "objectIntoFields", 1,
+		`for k := range attrTypes {
+	path[len(path)-1] = cty.GetAttrStep{
+		Name: k,
+	}
+	fieldIdx, exists := targetFields[k]
+	if !exists {
+		return path.NewErrorf("unsupported attribute %q", k)
+	}
+	ev := val.GetAttr(k)
+	targetField := target.Field(fieldIdx)
+	if !targetField.CanSet() {
+		return likelyRequiredTypesError(path[:len(path)-1], target)
+	}
+	err := fromCtyValue(ev, targetField, path)
+	if err != nil {
+		return err
+	}
+}`,
+		"(GoctyGo.objectIntoFields rec_ ord_ $val $target target_v)", []string{"val", "target"}},
 }
 
 var gcRegionsSeen = map[string]bool{}
@@ -401,9 +439,9 @@ func writeGoctyShapeFns(t *gcTr, leanDir, hdr string, nOld int, apiOld map[strin
 	for _, u := range t.out[nOld:] {
 		fmt.Fprintf(&lb, "--   %s  (%s)\n", u.name, u.pos)
 	}
-	lb.WriteString("-- NOT translated: the five val.ForEachElement(func …) loops (closures).  Each is a PINNED REGION: its source text is compared token for\n")
-	lb.WriteString("-- token with the text the given-API function was written against (any edit = broken tie).  fromCtyValue, fromCtyPopulatePtr, fromCtyObject\n")
-	lb.WriteString("-- (two loops over Go maps) and fromCtyCapsule are tied by theorem on the hand-written model only.  GIVEN API (GoctyGo.lean, GoctyShapeGo.lean):\n")
+	lb.WriteString("-- NOT translated: the five val.ForEachElement(func …) loops (closures) and the two loops over Go maps of fromCtyObject.  Each is a PINNED\n")
+	lb.WriteString("-- REGION: its source text is compared token for token with the text its given-API function was written against (any edit = broken tie).\n")
+	lb.WriteString("-- fromCtyValue, fromCtyPopulatePtr and fromCtyCapsule are tied by theorem on the hand-written model only.  GIVEN API (GoctyGo.lean, GoctyShapeGo.lean):\n")
 	var keys []string
 	for k := range t.usedAPI {
 		if !apiOld[k] {
